@@ -199,7 +199,7 @@ fn run<R: Ent>(a: &Args, salt: u64, t: &mut Tracer, st: &mut Stats, enumerated: 
             case::<R>(&mut rng, t, st, &sa, &sb, &sc);
         }
     }
-    let ncases = if a.thorough() { 150 } else { 12 };
+    let ncases = if a.thorough() { 1000 } else { 12 };
     let maxd = if a.thorough() { 7 } else { 5 };
     for _ in 0..ncases {
         let (m, n, k) = (rng.gen_range(0..=maxd), rng.gen_range(0..=maxd), rng.gen_range(0..=maxd));
@@ -207,7 +207,7 @@ fn run<R: Ent>(a: &Args, salt: u64, t: &mut Tracer, st: &mut Stats, enumerated: 
         let (sa, sb, sc) = (rand_sp::<R>(&mut rng, m, n, dens, 4, 0.25), rand_sp::<R>(&mut rng, m, n, dens, 4, 0.25), rand_sp::<R>(&mut rng, n, k, dens, 4, 0.25));
         case::<R>(&mut rng, t, st, &sa, &sb, &sc);
     }
-    let nh = if a.thorough() { 60 } else { 6 };
+    let nh = if a.thorough() { 400 } else { 6 };
     for _ in 0..nh { let len = rng.gen_range(0..7); trans_history::<R>(&mut rng, t, st, len); }
 }
 
